@@ -88,7 +88,9 @@ def corner_cases(tier):
 def images(c):
     rng = np.random.default_rng(c["seed"])
     if c["dtype"] == "int16":
-        a = rng.integers(-3000, 3000, size=(c["n"], c["h"], c["w"])).astype(np.int16)
+        # detector counts: every other stack uses the upper part of the int16 range (sums of a few pixels exceed it)
+        lo, hi = ((-3000, 3000) if c["seed"] % 2 else (0, 32000)) if c["seed"] % 4 else (-32000, 32000)
+        a = rng.integers(lo, hi, size=(c["n"], c["h"], c["w"])).astype(np.int16)
     else:
         a = rng.normal(0, 10, size=(c["n"], c["h"], c["w"])).astype(np.float32)
     for t in range(c["n"]):
